@@ -82,6 +82,32 @@ def roundtrip_case(M, n, centered, l1kind):
     return goals
 
 
+def reverse_case(M, n, centered, l1kind):
+    """the other composition: cartesian -> barycentric -> cartesian, on the caller's own array"""
+    from dreye.api.barycentric import barycentric_to_cartesian, cartesian_to_barycentric
+    P = M.real("P", (2, n - 1), sample=lambda r, s: r.uniform(-0.3, 0.3, size=s))
+    L1 = {"none": lambda: None, "scalar": lambda: M.real("L1", (), sample=lambda r, s: r.uniform(0.5, 3.0)),
+          "vec": lambda: M.real("L1", (2,), sample=lambda r, s: r.uniform(0.5, 3.0, size=s))}[l1kind]()
+    l1 = [1, 1] if L1 is None else ([L1, L1] if np.ndim(L1) == 0 else list(np.asarray(L1)))
+    for v in l1:
+        if not isinstance(v, int):
+            M.assume(v > 0)
+    snap = np.array(P, dtype=object if M.symbolic else float, copy=True)
+    Bk = np.asarray(cartesian_to_barycentric(P, L1=L1, centered=centered))
+    goals = {"shape": Bk.shape == (2, n), "the caller's cartesian array is not modified": M.eq(np.asarray(P), snap)}
+    if not goals["shape"]:
+        return goals
+    unit = np.array([[Bk[r, j] / l1[r] for j in range(n)] for r in range(2)], dtype=object if M.symbolic else float)
+    back = np.asarray(barycentric_to_cartesian(unit.view(symnp.SymArray) if M.symbolic else unit, center=centered))
+    M.observe("back", back)
+    goals["barycentric_to_cartesian inverts cartesian_to_barycentric"] = M.eq(back, snap)
+    again = np.asarray(cartesian_to_barycentric(P, L1=L1, centered=centered))
+    goals["converting the same points twice gives the same coordinates"] = M.eq(again, Bk)
+    goals["returned coordinates sum to the requested L1"] = M.eq(np.array([fs_sum(list(Bk[r])) for r in range(2)], dtype=object if M.symbolic else float),
+                                                                 np.array(l1, dtype=object if M.symbolic else float))
+    return goals
+
+
 def scale_case(M, n, center):
     from dreye.api.barycentric import barycentric_dim_reduction
     X = M.real("X", (2, n), sample=lambda r, s: r.uniform(0.0, 2.0, size=s)); t = M.real("t", (2,), sample=lambda r, s: 10.0 ** r.uniform(-12, 3, size=s))
@@ -135,6 +161,7 @@ def cases(tier, seed):
         for centered in (False, True):
             for l1kind in ("none", "scalar", "vec"):
                 add(f"inverse round trip n={n} centered={centered} L1={l1kind}", "roundtrip_case", n=n, centered=centered, l1kind=l1kind)
+                add(f"reverse round trip n={n} centered={centered} L1={l1kind}", "reverse_case", n=n, centered=centered, l1kind=l1kind)
     for d in (2, 3):  # d = 4 was probed in both tiers: z3 returns unknown after 120 s even for one point (stated bound: dimension <= 3)
         for npts in (1, 2):
             add(f"n-sphere d={d} points={npts}", "sphere_case", d=d, npts=npts)
